@@ -276,3 +276,68 @@ pub fn gen_c13_limit(rng: &mut Rng, np: usize) -> Node {
         Node::seq(call(q, format!("bigb{m}"), vec![], Out::Scalar("b".into())), Node::seq(outer, tail)),
     )
 }
+
+/// Directed generator for C12: one stream appended from several peers in different `par` branches (so values that
+/// come first in the script can reach a peer later than values appended further on), one or two folds over it
+/// placed between append groups, more appends afterwards, and a canon + probe at the end. Peers are revisited by
+/// the duplicate / stale deliveries of the profile.
+pub fn gen_c12(rng: &mut Rng, np: usize) -> Node {
+    let mut idc = 0usize;
+    let mut id = |c: &mut usize| {
+        *c += 1;
+        *c
+    };
+    let var = |n: &str| Arg::Var { name: n.to_string(), lens: vec![] };
+    fn group(rng: &mut Rng, np: usize, n: usize, idc: &mut usize) -> Node {
+        let mut acc: Option<Node> = None;
+        for _ in 0..n {
+            *idc += 1;
+            let k = *idc;
+            let a = if rng.chance(15) {
+                Node::Ap { src: Arg::Str(format!("l{k}")), dst: "$s".into() }
+            } else {
+                Node::Call { peer: PeerRef::Lit(rng.below(np)), service: "svc".into(), fname: format!("f{k}"), args: vec![], out: Out::Stream("$s".into()) }
+            };
+            acc = Some(match acc {
+                None => a,
+                Some(x) => {
+                    if rng.chance(70) {
+                        if rng.chance(50) { Node::par(x, a) } else { Node::par(a, x) }
+                    } else {
+                        Node::seq(x, a)
+                    }
+                }
+            });
+        }
+        acc.unwrap()
+    }
+    let mut fold = |rng: &mut Rng, idc: &mut usize| -> Node {
+        let k = id(idc);
+        let it = format!("it{k}");
+        let probe = call(rng.below(np), format!("f{k}"), vec![var(&it)], Out::None);
+        let body = if rng.chance(50) { Node::par(probe, Node::Next(it.clone())) } else { Node::seq(probe, Node::Next(it.clone())) };
+        Node::Fold { iterable: var("$s"), it, body: Box::new(body), last: Some(Box::new(Node::Null)) }
+    };
+    let n1 = 2 + rng.below(3);
+    let mut script = group(rng, np, n1, &mut idc);
+    let rounds = 1 + rng.below(2);
+    for _ in 0..rounds {
+        let f = fold(rng, &mut idc);
+        let n2 = 1 + rng.below(3);
+        let more = group(rng, np, n2, &mut idc);
+        script = match rng.below(3) {
+            0 => Node::seq(script, Node::seq(f, more)),
+            1 => Node::seq(script, Node::par(f, more)),
+            _ => Node::seq(Node::par(script, more), f),
+        };
+    }
+    let k = id(&mut idc);
+    let p = rng.below(np);
+    Node::seq(
+        script,
+        Node::seq(
+            Node::Canon { peer: PeerRef::Lit(p), src: "$s".into(), dst: format!("#c{k}") },
+            call(rng.below(np), format!("f{k}"), vec![Arg::Canon { name: format!("#c{k}"), lens: vec![] }], Out::None),
+        ),
+    )
+}
